@@ -137,7 +137,10 @@ func runShard(p *PropSpec, tier string, seed int64, shard, W, budget int, trace 
 	case <-time.After(time.Duration(budget)*time.Second + 90*time.Second):
 		cmd.Process.Kill()
 		<-done
-		return crashResult(p, shard, "worker exceeded budget+90s and was killed", ReadTrace(tracePath))
+		// the worker overran its time budget (a slow batch between two deadline checks, a loaded machine):
+		// what it explored is lost, nothing is concluded from it — a cap, never an alarm. Real hangs of the
+		// code under test are reported by the worker's own watchdog (no progress for 90 s) long before.
+		return Result{Counters: map[string]int64{}, Exhaustive: false, Caps: []string{fmt.Sprintf("worker of shard %d overran its budget and was stopped", shard)}}
 	}
 	var r Result
 	line := lastLine(out.Bytes())
